@@ -32,6 +32,16 @@ impl FrameBatch {
   /// from outside (the public send API, the wire) must check against it first.
   pub const MAX_FRAMES: usize = u8::MAX as usize;
 
+  /// Most frames the engine accepts for one message from a peer. ROUTER-type sockets
+  /// prepend an identity (and possibly a delimiter) to a received message, so the wire
+  /// limit leaves room for that inside `MAX_FRAMES`.
+  pub const MAX_WIRE_FRAMES: usize = Self::MAX_FRAMES - 2;
+
+  /// Most frames `Socket::send_multipart` accepts. DEALER / REQ / REP / ROUTER add
+  /// envelope frames (delimiter, routing prefix) on the way out and the receiving ROUTER
+  /// adds the identity; the user limit leaves room for those.
+  pub const MAX_USER_FRAMES: usize = Self::MAX_FRAMES - 5;
+
   pub fn new() -> Self {
     Self { inner: FrameBatchInner::Empty }
   }
